@@ -476,7 +476,7 @@ def configs(tier, pid):
                loads=[("lA", [(G, "any", 1)], 1), ("lB", [(C, "any", 1)], 3)], ntasks=nt, profiles=["p1"], depth=(5, 7)),
         Config("P.g1+g1", "pool", [[(G, "1", 1)], [(G, "1", 1)]],
                strategies=[("sA", [(G, "any", 1)], False), ("bA", [(G, "any", 1)], True)],
-               loads=[("lA", [(G, "any", 1)], 2)], ntasks=nt, profiles=["p1"], depth=(4, 7)),
+               loads=[("lA", [(G, "any", 1)], 2)], ntasks=nt, profiles=["p1"], depth=(5, 7)),
         Config("P.g1g2+c1g1", "pool", [[(G, "1", 1), (G, "2", 1)], [(C, "any", 1), (G, "1", 1)]],
                strategies=[("sA", [(G, "any", 1)], False), ("sB", [(G, "any", 2)], False), ("sO", [(G, "any", 1), (G, "1", 1)], False),
                            ("bA", [(G, "any", 1), (C, "any", 1)], True)],
